@@ -70,29 +70,31 @@ Inductive tstate :=
 | TLive (p : pc) (fuel : nat)    (* registered: counter incremented *)
 | TDone.                         (* returned: counter decremented *)
 
-Inductive tid := MI | RT | SO | PB | PU | CD | MU | UN.
+Inductive tid := MI | RT | SO | PB | PU | CD | MU | UN
+               | AP.   (* a goroutine of the application inside Node.HandleTx / SendTx -> TxChannel.Add; not started by Run, not counted *)
 Inductive kind := KCall | KOut | KTx | KSpawn | KFail | KEnd.
 Inductive cstate := CNone | COpen | CPeerClosed.
 
 Record threads := Thr { t_mi : tstate; t_rt : tstate; t_so : tstate; t_pb : tstate; t_pu : tstate;
-                        t_cd : tstate; t_mu : tstate; t_un : tstate }.
+                        t_cd : tstate; t_mu : tstate; t_un : tstate; t_ap : tstate }.
 
 Definition tget (T : threads) (t : tid) : tstate :=
   match t with
   | MI => t_mi T | RT => t_rt T | SO => t_so T | PB => t_pb T
-  | PU => t_pu T | CD => t_cd T | MU => t_mu T | UN => t_un T
+  | PU => t_pu T | CD => t_cd T | MU => t_mu T | UN => t_un T | AP => t_ap T
   end.
 
 Definition tset (T : threads) (t : tid) (s : tstate) : threads :=
   match t with
-  | MI => Thr s (t_rt T) (t_so T) (t_pb T) (t_pu T) (t_cd T) (t_mu T) (t_un T)
-  | RT => Thr (t_mi T) s (t_so T) (t_pb T) (t_pu T) (t_cd T) (t_mu T) (t_un T)
-  | SO => Thr (t_mi T) (t_rt T) s (t_pb T) (t_pu T) (t_cd T) (t_mu T) (t_un T)
-  | PB => Thr (t_mi T) (t_rt T) (t_so T) s (t_pu T) (t_cd T) (t_mu T) (t_un T)
-  | PU => Thr (t_mi T) (t_rt T) (t_so T) (t_pb T) s (t_cd T) (t_mu T) (t_un T)
-  | CD => Thr (t_mi T) (t_rt T) (t_so T) (t_pb T) (t_pu T) s (t_mu T) (t_un T)
-  | MU => Thr (t_mi T) (t_rt T) (t_so T) (t_pb T) (t_pu T) (t_cd T) s (t_un T)
-  | UN => Thr (t_mi T) (t_rt T) (t_so T) (t_pb T) (t_pu T) (t_cd T) (t_mu T) s
+  | MI => Thr s (t_rt T) (t_so T) (t_pb T) (t_pu T) (t_cd T) (t_mu T) (t_un T) (t_ap T)
+  | RT => Thr (t_mi T) s (t_so T) (t_pb T) (t_pu T) (t_cd T) (t_mu T) (t_un T) (t_ap T)
+  | SO => Thr (t_mi T) (t_rt T) s (t_pb T) (t_pu T) (t_cd T) (t_mu T) (t_un T) (t_ap T)
+  | PB => Thr (t_mi T) (t_rt T) (t_so T) s (t_pu T) (t_cd T) (t_mu T) (t_un T) (t_ap T)
+  | PU => Thr (t_mi T) (t_rt T) (t_so T) (t_pb T) s (t_cd T) (t_mu T) (t_un T) (t_ap T)
+  | CD => Thr (t_mi T) (t_rt T) (t_so T) (t_pb T) (t_pu T) s (t_mu T) (t_un T) (t_ap T)
+  | MU => Thr (t_mi T) (t_rt T) (t_so T) (t_pb T) (t_pu T) (t_cd T) s (t_un T) (t_ap T)
+  | UN => Thr (t_mi T) (t_rt T) (t_so T) (t_pb T) (t_pu T) (t_cd T) (t_mu T) s (t_ap T)
+  | AP => Thr (t_mi T) (t_rt T) (t_so T) (t_pb T) (t_pu T) (t_cd T) (t_mu T) (t_un T) s
   end.
 
 Record ctl := Ctl {
@@ -151,7 +153,7 @@ Definition set_thread w t s := set_thr w (tset (w_thr w) t s).
 
 Definition sw_init : sw :=
   SW (Ctl RLoop false false false false 0) CNone 0 0 (Chs false 0 false 0)
-     (Thr TNone TNone TNone TNone TNone TNone TNone TNone) (Cnt 0 0 0) false (Dat 0 0 0 false false false).
+     (Thr TNone TNone TNone TNone TNone TNone TNone TNone TNone) (Cnt 0 0 0) false (Dat 0 0 0 false false false).
 
 (* thread classes *)
 Definition is_incoming (t : tid) : bool := match t with MI | CD | MU => true | _ => false end.
@@ -162,9 +164,11 @@ Definition uses_out (t : tid) : bool := match t with MI | PB => true | _ => fals
 Definition uses_tx (t : tid) : bool := match t with MI | UN => true | _ => false end.
 
 Definition bump_cnt (c : cnt) (t : tid) (d : Z) : cnt :=
+  match t with AP => c | _ =>
   if is_incoming t then Cnt (n_in c + d) (n_proc c) (n_un c)
   else if is_processing t then Cnt (n_in c) (n_proc c + d) (n_un c)
-  else Cnt (n_in c) (n_proc c) (n_un c + d).
+  else Cnt (n_in c) (n_proc c) (n_un c + d)
+  end.
 
 Definition register w t := set_cnt (set_thread w t (TLive PTop 0)) (bump_cnt (w_cnt w) t 1).
 Definition exit_thread w t := set_cnt (set_thread w t TDone) (bump_cnt (w_cnt w) t (-1)).
@@ -203,7 +207,8 @@ Definition chan_eqb (a b : chan) : bool := match a, b with COut, COut | CTx, CTx
 Definition at_send (c : chan) (s : tstate) : bool :=
   match s with TLive (PSend c') _ => chan_eqb c c' | _ => false end.
 (* the channel's mutex is held exactly by a thread waiting in PSend *)
-Definition ch_locked w c := at_send c (thread w MI) || at_send c (thread w PB) || at_send c (thread w UN).
+Definition ch_locked w c :=
+  at_send c (thread w MI) || at_send c (thread w PB) || at_send c (thread w UN) || at_send c (thread w AP).
 
 Definition busy (s : tstate) : bool := match s with TNone | TDone => false | _ => true end.
 Definition spawned (s : tstate) : bool := match s with TSpawned => true | _ => false end.
@@ -214,6 +219,7 @@ Inductive act :=
 | APeerMsg                            (* a message of the trusted peer arrives *)
 | APeerClose                          (* the trusted peer closes / resets the connection *)
 | AUnMsg (n : nat)                    (* a message of the untrusted peer arrives: the untrusted node works on it *)
+| AApiTx                              (* the application calls Node.HandleTx / SendTx: TxChannel.Add begins *)
 | AReg (t : tid)                      (* a started goroutine runs its first statement: the counter increment *)
 | AStep (t : tid) (k : kind) (n : nat). (* next atomic step of a registered goroutine (k, n: its choices) *)
 
@@ -229,6 +235,7 @@ Variable sdrain : bool. (* sendOutgoing keeps emptying its channel after a faile
 Definition after_add w (t : tid) (f : nat) (ok : bool) : sw :=
   match t, ok with
   | PB, false => exit_thread w PB
+  | AP, _ => set_thread w AP TNone               (* HandleTx returns to the application *)
   | _, _ => set_thread w t (TLive PWork f)
   end.
 
@@ -263,6 +270,7 @@ Definition work_step w (t : tid) (f : nat) (k : kind) : option sw :=
                  else Some (exit_thread (set_pufail (request_stop w)) PU)                              (* requestStop; break *)
       | _ => Some (set_thread (if d_pufail (w_dat w) then w else callback w PU) PU (TLive PTop 0))
       end
+  | AP => None
   | _ =>
       match k, f with
       | KFail, _ => Some (fail_exit w t)
@@ -295,6 +303,7 @@ Definition top_step w (t : tid) (n : nat) : option sw :=
   | UN => if w_ustop w then Some (exit_thread w UN) else None     (* otherwise blocked in its read: AUnMsg *)
   | SO => consume w SO COut
   | PU => consume w PU CTx
+  | AP => None
   end.
 
 (* monitorIncoming blocked in ReadMessageN *)
@@ -336,7 +345,7 @@ Definition connect w : sw :=
             || (ucfg && busy (t_mu T)) in
   SW (Ctl RWaitStop (c_stopping c) (c_stopped c) (c_needs c) (c_hard c) (c_call c))
      COpen 0 (w_gen w + 1) (Chs true 1 true 0)
-     (Thr TSpawned TSpawned TSpawned TSpawned TSpawned TSpawned (if ucfg then TSpawned else t_mu T) (t_un T))
+     (Thr TSpawned TSpawned TSpawned TSpawned TSpawned TSpawned (if ucfg then TSpawned else t_mu T) (t_un T) (t_ap T))
      (w_cnt w) (w_ustop w)
      (Dat (d_mem d) (d_disk d) (d_calls d + 1) (d_late d || c_stopped c) false (d_overlap d || ov)).
 
@@ -369,13 +378,41 @@ Definition step w (a : act) : option sw :=
                 | TLive PTop _ => if w_ustop w then None else Some (set_thread w UN (TLive PWork n))
                 | _ => None
                 end
-  | AReg t => match thread w t with TSpawned => Some (register w t) | _ => None end
+  | AApiTx => match thread w AP with TNone => Some (set_thread w AP (TLive (PLock CTx) 0)) | _ => None end
+  | AReg t => match t, thread w t with
+              | AP, _ => None
+              | _, TSpawned => Some (register w t)
+              | _, _ => None
+              end
   | AStep t k n => step_thread w t k n
   end.
 
 Definition apply w a := match step w a with Some w' => w' | None => w end.
 Definition run_from w (acts : list act) : sw := fold_left apply acts w.
 Definition run (acts : list act) : sw := run_from sw_init acts.
+
+(* ---- a TxChannel.Add that checks `open` under the mutex but waits for room OUTSIDE it (not the code:
+   the code keeps the mutex while it waits).  Close no longer waits for a parked sender, and a sender
+   does not wait for another one; a sender parked on a channel that gets closed panics in Go
+   ("send on closed channel"). ---- *)
+Definition step_sol w (a : act) : option sw :=
+  match a with
+  | ARun _ =>
+      match pc_of w with
+      | RCloseTx => Some (set_pc (set_ch_open w CTx false) RWaitProc)
+      | _ => step w a
+      end
+  | AStep t _ _ =>
+      match thread w t with
+      | TLive (PLock CTx) f => if ch_open w CTx then Some (set_thread w t (TLive (PSend CTx) f)) else step w a
+      | _ => step w a
+      end
+  | _ => step w a
+  end.
+Definition run_sol (acts : list act) : sw :=
+  fold_left (fun w a => match step_sol w a with Some w' => w' | None => w end) acts sw_init.
+(* a goroutine is parked in a send on the closed tx channel *)
+Definition send_on_closed w : bool := negb (ch_open w CTx) && ch_locked w CTx.
 
 (* ---- the schedules excluded by the theorems (D27): a counter is observed to be zero although a
    goroutine started for that class has not yet incremented it ---- *)
@@ -443,6 +480,7 @@ Definition rank w : Z :=
   rank_run (pc_of w)
   + rank_thread MI (t_mi T) + rank_thread RT (t_rt T) + rank_thread SO (t_so T) + rank_thread PB (t_pb T)
   + rank_thread PU (t_pu T) + rank_thread CD (t_cd T) + rank_thread MU (t_mu T) + rank_thread UN (t_un T)
+  + rank_thread AP (t_ap T)
   + 3 * o_len (w_ch w) + 3 * x_len (w_ch w).
 
 (* steps monitorUntrustedNodes still needs before it has told the untrusted node to stop *)
@@ -511,7 +549,8 @@ Definition cands (listen skip_pu skip_pb in_body skip_so : bool) (w : sw) : list
    | TLive _ _ => [AStep PU KEnd 0]
    | _ => []
    end) ++
-  (match t_cd T with TLive PTop _ => if st then [AStep CD KEnd 0] else [] | TLive _ _ => [AStep CD KEnd 0] | _ => [] end).
+  (match t_cd T with TLive PTop _ => if st then [AStep CD KEnd 0] else [] | TLive _ _ => [AStep CD KEnd 0] | _ => [] end) ++
+  (match t_ap T with TLive _ _ => [AStep AP KEnd 0] | _ => [] end).
 
 Definition pick (listen skip_pu skip_pb in_body skip_so : bool) (w : sw) : option act :=
   List.find (enabled w) (cands listen skip_pu skip_pb in_body skip_so w).
@@ -524,6 +563,14 @@ Fixpoint settle (fuel : nat) (listen skip_pu skip_pb in_body skip_so : bool) (w 
            | None => w
            end
   end.
+
+(* bookkeeping of the application-side operations *)
+Record sext := SExt {
+  x_seen : list Z;    (* relevant txs tracked by the tx repository (delivered once) *)
+  x_apin : Z;         (* calls of the last api_fill *)
+  x_apiok : Z;        (* ... that returned nil *)
+  x_apierr : Z        (* ... that returned an error *)
+}.
 
 Record scn := Scn {
   s_w : sw;
@@ -540,14 +587,15 @@ Record scn := Scn {
   s_hold : Z;         (* 0 none, 1 HandleTx, 3 HandleHeaders, 100 output fetcher *)
   s_held : Z;         (* 0 none, 1 processUnconfirmedTxs parked, 2 processBlocks parked *)
   s_ann : list Z;     (* heights announced, in order *)
-  s_stopcalls : Z     (* handler invocations when Stop returned (-1: it has not) *)
+  s_stopcalls : Z;    (* handler invocations when Stop returned (-1: it has not) *)
+  s_x : sext
 }.
 
-Definition scn_init : scn := Scn sw_init true 0 false (-100) (-1) 0 0 false 0 0 0 0 [] (-1).
+Definition scn_init : scn := Scn sw_init true 0 false (-100) (-1) 0 0 false 0 0 0 0 [] (-1) (SExt [] 0 0 0).
 
 Definition with_w (s : scn) (w : sw) : scn :=
   Scn w (s_listen s) (s_acc s) (s_popen s) (s_base s) (s_sent s) (s_served s) (s_tip s) (s_ready s) (s_unconf s)
-      (s_peers s) (s_hold s) (s_held s) (s_ann s) (s_stopcalls s).
+      (s_peers s) (s_hold s) (s_held s) (s_ann s) (s_stopcalls s) (s_x s).
 
 Definition ssettle (s : scn) (w : sw) : sw := settle 600 (s_listen s) (s_held s =? 1) (s_held s =? 2) false false w.
 (* while monitorIncoming is inside the body that the scenario scripts *)
@@ -557,7 +605,7 @@ Definition bsettle (s : scn) (w : sw) : sw := settle 600 (s_listen s) (s_held s 
 Definition note_stop (s : scn) : scn :=
   if (s_stopcalls s <? 0) && stopped (s_w s) then
     Scn (s_w s) (s_listen s) (s_acc s) (s_popen s) (s_base s) (s_sent s) (s_served s) (s_tip s) (s_ready s) (s_unconf s)
-        (s_peers s) (s_hold s) (s_held s) (s_ann s) (d_calls (w_dat (s_w s)))
+        (s_peers s) (s_hold s) (s_held s) (s_ann s) (d_calls (w_dat (s_w s))) (s_x s)
   else s.
 
 (* the peer's connection is served by monitorIncoming *)
@@ -584,7 +632,8 @@ Inductive sop :=
 | SAccept | SVersion | SHeaders (n : Z) | SBlocks (k : Z) | SSync | STx (t : Z) (rel : bool) | SBurst (n : Z)
 | SPing | SAddr (n : Z) | SClose | SCloseStop | SSilence | SAge | SWaitRestart
 | SHold (k : Z) | SRelease (e : bool)
-| SStop | SStopAsync | SStopWait | SQuiet | SStored | SAnnounced | SCounts | SDrain | SSleep.
+| SStop | SStopAsync | SStopWait | SQuiet | SStored | SAnnounced | SCounts | SDrain | SSleep
+| SApiTx (t : Z) (rel : bool) | SApiFill (n : Z) | SApiResult | SBlockInv | SRestart.
 
 Fixpoint iter {A} (n : nat) (f : A -> A) (x : A) : A := match n with O => x | S n' => iter n' f (f x) end.
 
@@ -601,11 +650,11 @@ Definition process_block (s : scn) : scn :=
       let h := s_tip s + 1 in
       if s_hold s =? 3 then
         Scn w1 (s_listen s) (s_acc s) (s_popen s) (s_base s) (s_sent s) (s_served s) h (s_ready s) (s_unconf s)
-            (s_peers s) (s_hold s) 2 (s_ann s ++ [h]) (s_stopcalls s)
+            (s_peers s) (s_hold s) 2 (s_ann s ++ [h]) (s_stopcalls s) (s_x s)
       else
         let w2 := sapply (sapply w1 (AStep PB KCall 0)) (AStep PB KEnd 0) in
         Scn (ssettle s w2) (s_listen s) (s_acc s) (s_popen s) (s_base s) (s_sent s) (s_served s) h (s_ready s) (s_unconf s)
-            (s_peers s) (s_hold s) (s_held s) (s_ann s ++ [h]) (s_stopcalls s)
+            (s_peers s) (s_hold s) (s_held s) (s_ann s ++ [h]) (s_stopcalls s) (s_x s)
   | _ => s
   end.
 
@@ -613,12 +662,34 @@ Definition serve_block (s : scn) : scn :=
   if alive s then
     let s1 := with_w s (deliver s (s_w s) []) in
     let s2 := Scn (s_w s1) (s_listen s1) (s_acc s1) (s_popen s1) (s_base s1) (s_sent s1) (s_served s1 + 1) (s_tip s1)
-                  (s_ready s1) (s_unconf s1) (s_peers s1) (s_hold s1) (s_held s1) (s_ann s1) (s_stopcalls s1) in
+                  (s_ready s1) (s_unconf s1) (s_peers s1) (s_hold s1) (s_held s1) (s_ann s1) (s_stopcalls s1) (s_x s1) in
     process_block s2
   else Scn (s_w s) (s_listen s) (s_acc s) (s_popen s) (s_base s) (s_sent s) (s_served s + 1) (s_tip s)
-           (s_ready s) (s_unconf s) (s_peers s) (s_hold s) (s_held s) (s_ann s) (s_stopcalls s).
+           (s_ready s) (s_unconf s) (s_peers s) (s_hold s) (s_held s) (s_ann s) (s_stopcalls s) (s_x s).
 
 Fixpoint enc_ann (l : list Z) : list Z := match l with [] => [] | h :: l' => h :: h :: enc_ann l' end.
+
+Definition with_x (s : scn) (x : sext) : scn :=
+  Scn (s_w s) (s_listen s) (s_acc s) (s_popen s) (s_base s) (s_sent s) (s_served s) (s_tip s) (s_ready s) (s_unconf s)
+      (s_peers s) (s_hold s) (s_held s) (s_ann s) (s_stopcalls s) x.
+Definition seen (s : scn) (t : Z) : bool := existsb (Z.eqb t) (x_seen (s_x s)).
+Definition add_seen (s : scn) (t : Z) : sext :=
+  let x := s_x s in SExt (x_seen x ++ [t]) (x_apin x) (x_apiok x) (x_apierr x).
+Definition ap_idle (w : sw) : bool := match t_ap (w_thr w) with TNone => true | _ => false end.
+(* one call of Node.HandleTx by the application, and whatever it enables *)
+Definition api_call (s : scn) (w : sw) : sw := ssettle s (sapply w AApiTx).
+(* the application goroutine makes its next calls, one after the other, until one does not return *)
+Fixpoint api_calls (n : nat) (s : scn) (w : sw) (ok err : Z) : sw * Z * Z :=
+  match n with
+  | O => (w, ok, err)
+  | S n' =>
+      if ap_idle w then
+        let o := x_open (w_ch w) in
+        let w1 := api_call s w in
+        if ap_idle w1 then api_calls n' s w1 (if o then ok + 1 else ok) (if o then err else err + 1)
+        else (w1, ok, err)
+      else (w, ok, err)
+  end.
 
 Definition sstep (s : scn) (o : sop) : scn * obs :=
   let w := s_w s in
@@ -628,30 +699,30 @@ Definition sstep (s : scn) (o : sop) : scn * obs :=
   | SStart => fin (with_w s (ssettle s w)) [OK]
   | SListen =>
       let s1 := Scn w true (s_acc s) (s_popen s) (s_base s) (s_sent s) (s_served s) (s_tip s) (s_ready s) (s_unconf s)
-                    (s_peers s) (s_hold s) (s_held s) (s_ann s) (s_stopcalls s) in
+                    (s_peers s) (s_hold s) (s_held s) (s_ann s) (s_stopcalls s) (s_x s) in
       fin (with_w s1 (ssettle s1 w)) [OK]
   | SUnlisten =>
       fin (Scn w false (s_acc s) (s_popen s) (s_base s) (s_sent s) (s_served s) (s_tip s) (s_ready s) (s_unconf s)
-               (s_peers s) (s_hold s) (s_held s) (s_ann s) (s_stopcalls s)) [OK]
+               (s_peers s) (s_hold s) (s_held s) (s_ann s) (s_stopcalls s) (s_x s)) [OK]
   | SAccept =>
       if s_listen s && (s_acc s <? w_gen w) && match w_conn w with COpen => true | _ => false end then
         fin (Scn w (s_listen s) (w_gen w) true (-100) (-1) (s_served s) (s_tip s) false (s_unconf s)
-                 (s_peers s) (s_hold s) (s_held s) (s_ann s) (s_stopcalls s)) [OK; 1; s_tip s]
+                 (s_peers s) (s_hold s) (s_held s) (s_ann s) (s_stopcalls s) (s_x s)) [OK; 1; s_tip s]
       else fin s [OK; 0; -1]
   | SVersion =>
       if alive s then
         let w1 := deliver s w [KOut; KOut] in
         fin (Scn w1 (s_listen s) (s_acc s) (s_popen s) (s_tip s) (s_sent s) (s_served s) (s_tip s) (s_ready s) (s_unconf s)
-                 (s_peers s) (s_hold s) (s_held s) (s_ann s) (s_stopcalls s)) [OK; 1; 1; s_tip s]
+                 (s_peers s) (s_hold s) (s_held s) (s_ann s) (s_stopcalls s) (s_x s)) [OK; 1; 1; s_tip s]
       else fin s [OK; 0; 0; s_base s]
   | SHeaders n =>
       let base := if s_sent s <? 0 then s_base s else s_sent s in
       if alive s then
         let w1 := deliver s w [KCall; KOut] in
         fin (Scn w1 (s_listen s) (s_acc s) (s_popen s) (s_base s) (base + n) (s_served s) (s_tip s) (s_ready s) (s_unconf s)
-                 (s_peers s) (s_hold s) (s_held s) (s_ann s) (s_stopcalls s)) [OK; n]
+                 (s_peers s) (s_hold s) (s_held s) (s_ann s) (s_stopcalls s) (s_x s)) [OK; n]
       else fin (Scn w (s_listen s) (s_acc s) (s_popen s) (s_base s) (base + n) (s_served s) (s_tip s) (s_ready s) (s_unconf s)
-                    (s_peers s) (s_hold s) (s_held s) (s_ann s) (s_stopcalls s)) [OK; 0]
+                    (s_peers s) (s_hold s) (s_held s) (s_ann s) (s_stopcalls s) (s_x s)) [OK; 0]
   | SBlocks k =>
       let s1 := iter (Z.to_nat k) serve_block s in
       fin s1 [OK; s_tip s1 - s_tip s]
@@ -660,7 +731,7 @@ Definition sstep (s : scn) (o : sop) : scn * obs :=
         let w1 := deliver s w [KCall; KOut; KOut; KCall] in
         let w2 := deliver s w1 [KOut] in
         fin (Scn w2 (s_listen s) (s_acc s) (s_popen s) (s_base s) (s_sent s) (s_served s) (s_tip s) true (s_unconf s)
-                 (s_peers s) (s_hold s) (s_held s) (s_ann s) (s_stopcalls s)) [OK; 1]
+                 (s_peers s) (s_hold s) (s_held s) (s_ann s) (s_stopcalls s) (s_x s)) [OK; 1]
       else fin s [OK; 0]
   | STx t rel =>
       if alive s && s_ready s then
@@ -669,12 +740,15 @@ Definition sstep (s : scn) (o : sop) : scn * obs :=
             (* the consumer takes it and is parked in the held call *)
             let s0 := Scn w (s_listen s) (s_acc s) (s_popen s) (s_base s) (s_sent s) (s_served s) (s_tip s) (s_ready s)
                           (if s_hold s =? 1 then s_unconf s + 1 else s_unconf s)
-                          (s_peers s) (s_hold s) 1 (s_ann s) (s_stopcalls s) in
+                          (s_peers s) (s_hold s) 1 (s_ann s) (s_stopcalls s) (add_seen s t) in
             fin (with_w s0 (deliver s0 w [KTx])) [OK; b2z (s_hold s =? 1)]
           else
-            let w1 := deliver s w [KTx] in
-            fin (Scn w1 (s_listen s) (s_acc s) (s_popen s) (s_base s) (s_sent s) (s_served s) (s_tip s) (s_ready s)
-                     (s_unconf s + 1) (s_peers s) (s_hold s) (s_held s) (s_ann s) (s_stopcalls s)) [OK; 1]
+            (* the harness then pings and pushes a marker tx through the API: when the marker has been taken,
+               this tx has been processed; a tx the repository already tracks is not delivered again *)
+            let w1 := api_call s (deliver s (deliver s w [KTx]) [KOut]) in
+            if seen s t then fin (with_w s w1) [OK; 0]
+            else fin (Scn w1 (s_listen s) (s_acc s) (s_popen s) (s_base s) (s_sent s) (s_served s) (s_tip s) (s_ready s)
+                          (s_unconf s + 1) (s_peers s) (s_hold s) (s_held s) (s_ann s) (s_stopcalls s) (add_seen s t)) [OK; 1]
         else
           fin (with_w s (deliver s (deliver s w [KTx]) [KOut])) [OK; 0]
       else if alive s then fin (with_w s (deliver s (deliver s w []) [KOut])) [OK; 0]
@@ -689,12 +763,12 @@ Definition sstep (s : scn) (o : sop) : scn * obs :=
       if alive s then
         let w1 := deliver s (deliver s w [KCall]) [KOut] in
         fin (Scn w1 (s_listen s) (s_acc s) (s_popen s) (s_base s) (s_sent s) (s_served s) (s_tip s) (s_ready s) (s_unconf s)
-                 (s_peers s + n) (s_hold s) (s_held s) (s_ann s) (s_stopcalls s)) [OK; s_peers s + n]
+                 (s_peers s + n) (s_hold s) (s_held s) (s_ann s) (s_stopcalls s) (s_x s)) [OK; s_peers s + n]
       else fin s [OK; s_peers s]
   | SClose =>
       let w1 := if s_popen s && (w_gen w =? s_acc s) then sapply w APeerClose else w in
       let s1 := Scn w1 (s_listen s) (s_acc s) false (s_base s) (s_sent s) (s_served s) (s_tip s) false (s_unconf s)
-                    (s_peers s) (s_hold s) (s_held s) (s_ann s) (s_stopcalls s) in
+                    (s_peers s) (s_hold s) (s_held s) (s_ann s) (s_stopcalls s) (s_x s) in
       fin (with_w s1 (ssettle s1 w1)) [OK]
   | SCloseStop =>
       (* the peer closes / resets; the application calls Stop exactly when the run loop is inside the
@@ -704,7 +778,7 @@ Definition sstep (s : scn) (o : sop) : scn * obs :=
         let w2 := sapply (sapply w1 (ARun true)) (ARun true) in            (* "Stopping"; connection closed *)
         let hit := needs w2 && stopping w2 && match w_conn w2 with CNone => true | _ => false end in
         let s1 := Scn w2 (s_listen s) (s_acc s) false (s_base s) (s_sent s) (s_served s) (s_tip s) false (s_unconf s)
-                      (s_peers s) (s_hold s) (s_held s) (s_ann s) (s_stopcalls s) in
+                      (s_peers s) (s_hold s) (s_held s) (s_ann s) (s_stopcalls s) (s_x s) in
         let w3 := ssettle s1 (sapply (sapply w2 AStopFlag) AStopReq) in
         fin_stop (with_w s1 w3) [OK; b2z hit; b2z (stopped w3); b2z (stopped w3); b2z (w_gen w <? w_gen w3)]
       else fin s [OK; 0; 0; 0; 0]
@@ -714,20 +788,20 @@ Definition sstep (s : scn) (o : sop) : scn * obs :=
       if negb (s_ready s) && match t_rt (w_thr w) with TLive PTop _ => negb (stopping w) | _ => false end then
         let w1 := sapply (sapply w (AStep RT KEnd 1)) (AStep RT KFail 0) in
         let s1 := Scn w1 (s_listen s) (s_acc s) (s_popen s) (s_base s) (s_sent s) (s_served s) (s_tip s) false (s_unconf s)
-                      (s_peers s) (s_hold s) (s_held s) (s_ann s) (s_stopcalls s) in
+                      (s_peers s) (s_hold s) (s_held s) (s_ann s) (s_stopcalls s) (s_x s) in
         fin (with_w s1 (ssettle s1 w1)) [OK; 1]
       else fin s [OK; 0]
   | SWaitRestart => fin s [OK; 1]
   | SHold k =>
       fin (Scn w (s_listen s) (s_acc s) (s_popen s) (s_base s) (s_sent s) (s_served s) (s_tip s) (s_ready s) (s_unconf s)
-               (s_peers s) k (s_held s) (s_ann s) (s_stopcalls s)) [OK]
+               (s_peers s) k (s_held s) (s_ann s) (s_stopcalls s) (s_x s)) [OK]
   | SRelease e =>
       let w1 := if s_held s =? 1 then sapply w (AStep PU (if e then KFail else KEnd) 0)
                 else if s_held s =? 2 then sapply (sapply w (AStep PB KCall 0)) (AStep PB KEnd 0)
                 else w in
       let u := if (s_held s =? 1) && (s_hold s =? 100) then s_unconf s + 1 else s_unconf s in
       let s1 := Scn w1 (s_listen s) (s_acc s) (s_popen s) (s_base s) (s_sent s) (s_served s) (s_tip s) (s_ready s) u
-                    (s_peers s) 0 0 (s_ann s) (s_stopcalls s) in
+                    (s_peers s) 0 0 (s_ann s) (s_stopcalls s) (s_x s) in
       fin (with_w s1 (ssettle s1 w1)) [OK]
   | SStop =>
       let w1 := ssettle s (sapply (sapply w AStopFlag) AStopReq) in
@@ -753,6 +827,41 @@ Definition sstep (s : scn) (o : sop) : scn * obs :=
       let had := 0 <? x_len (w_ch w) in
       fin (with_w s (ssettle s (set_xlen w 0))) [OK; b2z had]
   | SSleep => fin s [OK]
+  | SApiTx t rel =>
+      let o := x_open (w_ch w) in
+      if negb o then fin (with_w s (api_call s w)) [OK; 1; 0]
+      else if rel && negb (seen s t) then
+        if (s_hold s =? 1) || (s_hold s =? 100) then
+          let s0 := Scn w (s_listen s) (s_acc s) (s_popen s) (s_base s) (s_sent s) (s_served s) (s_tip s) (s_ready s)
+                        (if s_hold s =? 1 then s_unconf s + 1 else s_unconf s)
+                        (s_peers s) (s_hold s) 1 (s_ann s) (s_stopcalls s) (add_seen s t) in
+          fin (with_w s0 (api_call s0 w)) [OK; 0; b2z (s_hold s =? 1)]
+        else
+          fin (Scn (api_call s w) (s_listen s) (s_acc s) (s_popen s) (s_base s) (s_sent s) (s_served s) (s_tip s) (s_ready s)
+                   (s_unconf s + 1) (s_peers s) (s_hold s) (s_held s) (s_ann s) (s_stopcalls s) (add_seen s t)) [OK; 0; 1]
+      else fin (with_w s (api_call s w)) [OK; 0; 0]
+  | SApiFill n =>
+      let '(w1, ok, err) := api_calls (Z.to_nat n) s w 0 0 in
+      fin (with_x (with_w s w1) (SExt (x_seen (s_x s)) n ok err)) [OK; ok + err; b2z (negb (ap_idle w1))]
+  | SApiResult =>
+      let x := s_x s in
+      if ap_idle w then
+        (* the call that was waiting has returned (it was queued); the goroutine makes its remaining calls *)
+        let waited := if x_apiok x + x_apierr x <? x_apin x then 1 else 0 in
+        let '(w1, ok, err) := api_calls (Z.to_nat (x_apin x - x_apiok x - x_apierr x - waited)) s w (x_apiok x + waited) (x_apierr x) in
+        fin (with_x (with_w s w1) (SExt (x_seen x) (x_apin x) ok err)) [OK; b2z (ap_idle w1); ok; err; 0]
+      else fin s [OK; 0; x_apiok x; x_apierr x; 0]
+  | SBlockInv =>
+      if alive s then
+        let w1 := deliver s (deliver s w [KCall]) [KOut] in
+        fin (Scn w1 (s_listen s) (s_acc s) (s_popen s) (s_base s) (s_sent s) (s_served s) (s_tip s) false (s_unconf s)
+                 (s_peers s) (s_hold s) (s_held s) (s_ann s) (s_stopcalls s) (s_x s)) [OK; 0]
+      else fin s [OK; b2z (s_ready s)]
+  | SRestart =>
+      (* a new process on the same storage: what was saved is what it knows *)
+      let s1 := Scn sw_init (s_listen s) 0 false (-100) (-1) (s_tip s) (s_tip s) false (s_unconf s)
+                    (s_peers s) 0 0 (s_ann s) (-1) (s_x s) in
+      fin (with_w s1 (ssettle s1 sw_init)) [OK]
   end.
 
 Fixpoint srun_from (s : scn) (ops : list sop) : list obs :=
@@ -771,6 +880,9 @@ Definition srun (ops : list sop) : list obs := srun_from scn_init ops.
    905 Stop returned while a handler callback was still being held
    906 after a reconnect the node did not resume from its tip (version height / locator)
    907 the node connected again after Stop was requested
+   908 a call of the public API (Node.HandleTx) panicked
+   909 a call of the public API did not return although nothing was being held
+   910 a relevant tx was delivered to the handlers as a new tx twice (also across a restart on the same storage)
    897 malformed trace *)
 Fixpoint contiguous_from (h : Z) (l : list Z) : bool :=
   match l with
@@ -779,11 +891,12 @@ Fixpoint contiguous_from (h : Z) (l : list Z) : bool :=
   | _ => false
   end.
 
-Fixpoint c19_monitor_from (i : Z) (held : bool) (tip : Z) (ops : list sop) (tr : list obs) : option (Z * obs) :=
+Fixpoint c19_monitor_from (i : Z) (held : bool) (tip : Z) (dl : list Z) (ops : list sop) (tr : list obs) : option (Z * obs) :=
   match ops, tr with
   | [], [] => None
   | o :: ops', ob :: tr' =>
-      let next h t := c19_monitor_from (i + 1) h t ops' tr' in
+      let next h t := c19_monitor_from (i + 1) h t dl ops' tr' in
+      let next_d h t d := c19_monitor_from (i + 1) h t d ops' tr' in
       match o, ob with
       | SHold _, _ => next true tip
       | SRelease _, _ => next false tip
@@ -801,13 +914,19 @@ Fixpoint c19_monitor_from (i : Z) (held : bool) (tip : Z) (ops : list sop) (tr :
       | SStored, [_; x] => if x =? -2 then Some (i, [903]) else next held tip
       | SAnnounced, _ :: l => if contiguous_from 1 l then next held tip else Some (i, [904])
       | SBlocks _, [_; n] => next held (tip + n)
+      | STx t true, [_; d] =>
+          if d =? 1 then (if existsb (Z.eqb t) dl then Some (i, [910]) else next_d held tip (t :: dl)) else next held tip
+      | SApiTx t true, [_; _; d] =>
+          if d =? 1 then (if existsb (Z.eqb t) dl then Some (i, [910]) else next_d held tip (t :: dl)) else next held tip
+      | SApiResult, [_; fin; _; _; panics] =>
+          if 0 <? panics then Some (i, [908]) else if (fin =? 0) && negb held then Some (i, [909]) else next held tip
       | SAccept, [_; got; last] => if (got =? 1) && negb (last =? tip) then Some (i, [906]) else next held tip
       | SVersion, [_; _; gh; loc] => if (gh =? 1) && negb (loc =? tip) then Some (i, [906]) else next held tip
       | _, _ => next held tip
       end
   | _, _ => Some (i, [897])
   end.
-Definition c19_monitor : checker sop := fun ops tr => c19_monitor_from 0 false 0 ops tr.
+Definition c19_monitor : checker sop := fun ops tr => c19_monitor_from 0 false 0 [] ops tr.
 
 
 (* ================================================================================================ *)
